@@ -93,7 +93,13 @@ Proof.
                             | Some (h0, m, s, f) => inl (tc_frames (dfc_fps (slice 3 8 gsi)) h0 m s f * snd (dfc_fps (slice 3 8 gsi)), fst (dfc_fps (slice 3 8 gsi)))
                             | None => inr (Internal AttributeErr)
                             end
-              | StartTimecode h0 m s f => inl (tc_frames (dfc_fps (slice 3 8 gsi)) h0 m s f * snd (dfc_fps (slice 3 8 gsi)), fst (dfc_fps (slice 3 8 gsi)))
+              | StartTimecode df h0 m s f =>
+                  inl (tc_frames (if df && negb (snd (dfc_fps (slice 3 8 gsi)) =? 1001)
+                                  then (fst (dfc_fps (slice 3 8 gsi)) * 1000, snd (dfc_fps (slice 3 8 gsi)) * 1001) else dfc_fps (slice 3 8 gsi)) h0 m s f
+                       * snd (if df && negb (snd (dfc_fps (slice 3 8 gsi)) =? 1001)
+                              then (fst (dfc_fps (slice 3 8 gsi)) * 1000, snd (dfc_fps (slice 3 8 gsi)) * 1001) else dfc_fps (slice 3 8 gsi)),
+                       fst (if df && negb (snd (dfc_fps (slice 3 8 gsi)) =? 1001)
+                            then (fst (dfc_fps (slice 3 8 gsi)) * 1000, snd (dfc_fps (slice 3 8 gsi)) * 1001) else dfc_fps (slice 3 8 gsi)))
               end) as [off|o] eqn:St; [|discriminate].
     assert (Cnt : (match bytes_int (slice 238 5 gsi) with Some n => n | None => maxsize end) <> 0).
     { destruct (bytes_int (slice 238 5 gsi)) as [n|]; [|unfold maxsize; lia]. apply Z.eqb_neq. exact T3. }
